@@ -143,6 +143,36 @@ struct Ref {
   Q STL() const { return ustar - aL * powq(pstar / pL, (g - 1) / (2 * g)); }
   Q STR() const { return ustar + aR * powq(pstar / pR, (g - 1) / (2 * g)); }
 
+  // speeds at which the reference solution has a jump or a kink
+  void waves(std::vector< Q > &w) const {
+    w.clear();
+    if (vacL && vacR)
+      return;
+    if (vacR || vacGen) {
+      w.push_back(uL - aL);
+      w.push_back(uL + 2 * aL / (g - 1));
+    }
+    if (vacL || vacGen) {
+      w.push_back(uR + aR);
+      w.push_back(uR - 2 * aR / (g - 1));
+    }
+    if (vacL || vacR || vacGen)
+      return;
+    w.push_back(ustar);
+    if (pstar > pL)
+      w.push_back(SL());
+    else {
+      w.push_back(uL - aL);
+      w.push_back(STL());
+    }
+    if (pstar > pR)
+      w.push_back(SR());
+    else {
+      w.push_back(uR + aR);
+      w.push_back(STR());
+    }
+  }
+
   RefState sample(Q S) const {
     if (vacL && vacR)
       return mk(0, 0, 0, 0, 9);
@@ -215,27 +245,31 @@ static bool matches(const RefState &r, int flag, Q rho, Q u, Q P, const Tol &t) 
          closeQ(P, r.P, t.rel, t.pabs);
 }
 
-static bool within(Q x, Q a, Q b, Q c, Q rel, Q absfloor) {
-  Q lo = a, hi = a;
-  if (b < lo) lo = b;
-  if (c < lo) lo = c;
-  if (b > hi) hi = b;
-  if (c > hi) hi = c;
-  return x >= lo - (rel * qabs(lo) + absfloor) && x <= hi + (rel * qabs(hi) + absfloor);
-}
-
 // next to a wave (position known to ~1e-8 of the velocity scale only): every component must lie
-// in the envelope of the reference solution over [S - delta, S + delta]
-static bool matchesEnvelope(const RefState &a, const RefState &b, const RefState &c, int flag, Q rho,
-                            Q u, Q P, const Tol &t) {
-  if (flag != a.flag && flag != b.flag && flag != c.flag)
+// in the envelope of the reference solution over [S - delta, S + delta] (the candidates are the
+// reference at S, S +- delta and on both sides of every reference wave inside that window)
+static bool matchesEnvelope(const std::vector< RefState > &c, int flag, Q rho, Q u, Q P, const Tol &t) {
+  bool flagOk = false, anyVac = false;
+  Q rlo = c[0].rho, rhi = c[0].rho, plo = c[0].P, phi = c[0].P, ulo = c[0].u, uhi = c[0].u;
+  for (size_t i = 0; i < c.size(); ++i) {
+    flagOk = flagOk || (c[i].flag == flag);
+    anyVac = anyVac || (c[i].region == 9);
+    if (c[i].rho < rlo) rlo = c[i].rho;
+    if (c[i].rho > rhi) rhi = c[i].rho;
+    if (c[i].P < plo) plo = c[i].P;
+    if (c[i].P > phi) phi = c[i].P;
+    if (c[i].u < ulo) ulo = c[i].u;
+    if (c[i].u > uhi) uhi = c[i].u;
+  }
+  if (!flagOk)
     return false;
-  const bool anyVac = (a.region == 9 || b.region == 9 || c.region == 9);
-  if (!within(rho, a.rho, b.rho, c.rho, t.rel, t.rhoabs) || !within(P, a.P, b.P, c.P, t.rel, t.pabs))
+  if (!(rho >= rlo - (t.rel * qabs(rlo) + t.rhoabs) && rho <= rhi + (t.rel * qabs(rhi) + t.rhoabs)))
     return false;
-  if (anyVac || (numVac(rho, P, t)))
+  if (!(P >= plo - (t.rel * qabs(plo) + t.pabs) && P <= phi + (t.rel * qabs(phi) + t.pabs)))
+    return false;
+  if (anyVac || numVac(rho, P, t))
     return true; // the velocity of a vacuum is meaningless (the code returns 0)
-  return within(u, a.u, b.u, c.u, t.rel, t.uabs);
+  return u >= ulo - (t.rel * qabs(ulo) + t.uabs) && u <= uhi + (t.rel * qabs(uhi) + t.uabs);
 }
 
 static void oracle(uint64_t lineno, const Ref &R, double xd, int flag, double rhod, double ud,
@@ -270,11 +304,25 @@ static void oracle(uint64_t lineno, const Ref &R, double xd, int flag, double rh
     t.pabs = q(1.e-13) * (1 + n) * pscale;
     t.uabs = q(2.e-7) * (1 + n) * vscale;
     const Q delta = q(1.e-7) * (vscale + qabs(S));
-    const RefState r0 = R.sample(S), rm = R.sample(S - delta), rp = R.sample(S + delta);
-    const bool nearWave = (r0.region != rm.region) || (r0.region != rp.region);
+    const RefState r0 = R.sample(S);
+    std::vector< RefState > cand;
+    cand.push_back(r0);
+    cand.push_back(R.sample(S - delta));
+    cand.push_back(R.sample(S + delta));
+    std::vector< Q > ws;
+    R.waves(ws);
+    bool nearWave = false;
+    for (size_t i = 0; i < ws.size(); ++i) {
+      if (qabs(ws[i] - S) <= delta) {
+        nearWave = true;
+        const Q tiny = q(1.e-25) * (vscale + qabs(ws[i]));
+        cand.push_back(R.sample(ws[i] - tiny));
+        cand.push_back(R.sample(ws[i] + tiny));
+      }
+    }
     bool ok = matches(r0, flag, rho, u, P, t);
     if (!ok && nearWave)
-      ok = matchesEnvelope(rm, r0, rp, flag, rho, u, P, t);
+      ok = matchesEnvelope(cand, flag, rho, u, P, t);
     if (!ok) {
       // separate key when the exact star pressure is not representable as a double
       const bool underflow = !R.vacL && !R.vacR && !R.vacGen &&
